@@ -16,7 +16,7 @@ RULE = ("full grid: rejection kind {unsupported dtype, non-text / duplicate colu
         "n row groups, mode) tuples")
 ASSUMPTIONS = ["an operation that the library accepts instead of refusing is counted (accepted) and only required to keep the old rows intact",
                "content equality is judged on the table read back, not on file bytes (an aborted multi-file append may leave orphan part files)"]
-CASE_TIMEOUT = 300
+CASE_TIMEOUT = 120
 
 KINDS = ["complex_dtype", "nontext_name", "duplicate_name", "none_in_required", "bad_object_encoding", "append_diff_columns",
          "append_diff_dtype", "append_diff_scheme", "append_diff_partitioning", "append_unencodable_value", "unknown_column_read",
@@ -48,6 +48,16 @@ def gen_cases(tier, seed):
         k += 1
         cases.append({"id": "H/%s/%s/%s/%d" % (kind, pos, state, rows), "kind": kind, "pos": pos, "rgpos": "later", "state": state, "nrg": 2, "mode": "append",
                       "seed": 2100 + k, "rows": 12, "new_rows": rows, "reuse_handle": True})
+    # the existing dataset has a history: row groups were removed from it earlier, so the part numbers in use have gaps
+    for kind, pos, state, gap in itertools.product(["append_unencodable_value", "none_in_required", "na_in_required_int", "unknown_codec", "append_diff_columns"],
+                                                   ["first", "last"], ["hive", "hive_part"], [[1], [0, 2], [0]]):
+        k += 1
+        if kind not in KINDS:
+            continue
+        if tier == "quick" and k % 2 and kind != "append_unencodable_value":
+            continue
+        cases.append({"id": "GP/%s/%s/%s/%s" % (kind, pos, state, "".join(map(str, gap))), "kind": kind, "pos": pos, "rgpos": ["first", "later"][k % 2], "state": state,
+                      "nrg": 5, "mode": "append", "seed": 2300 + k, "rows": 20, "removed_before": gap})
     rng = np.random.default_rng([seed, 1818])
     for i in range(150 if tier == "quick" else 3000):
         cases.append({"id": "R/%d/%d" % (seed, i), "kind": KINDS[int(rng.integers(0, len(KINDS)))],
@@ -164,6 +174,12 @@ def run_case(case):
         base_kw["has_nulls"] = case["has_nulls_mode"]
     try:
         fastparquet.write(path, df0, **base_kw)
+        if case.get("removed_before"):
+            pf_ = fastparquet.ParquetFile(path)
+            rgs_ = [pf_.row_groups[i_] for i_ in case["removed_before"] if i_ < len(pf_.row_groups) - 1]
+            if rgs_:
+                pf_.remove_row_groups(rgs_)
+                counters["datasets_with_removed_row_groups"] = 1
         before_tab = fastparquet.ParquetFile(path).to_pandas(index=False)
         before_schema = list(fastparquet.ParquetFile(path).schema.schema_elements)
         before_files = fsmon.snapshot(path)
@@ -311,4 +327,4 @@ def run_case(case):
 
 
 def required(tier):
-    return {"rejected": 300, "snapshots_compared": 300}
+    return {"rejected": 300, "snapshots_compared": 300, "datasets_with_removed_row_groups": 20}
